@@ -42,6 +42,8 @@ func c10(w *core.World, r *core.Report) {
 	r.Rule("R10.7", "key-position tables well-formed", 3)
 	ruleKeyTables(w, r)
 
+	r.Rule("R10.10", "the filter tries only grow: no existing node loses children or its terminal mark", 1)
+	ruleTrieGrowOnly(w, r)
 	r.Rule("R10.9", "rows of multi-key commands equal the published key specifications", 1)
 	ruleMultiKeySpecs(w, r)
 	r.Rule("R10.8", "what is forwarded is the filter's projection, not the decoded argument list (both incremental parsers)", 2)
@@ -980,4 +982,51 @@ func argIsParam(v ssa.Value, par *ssa.Parameter) bool {
 		found = true
 	}
 	return found
+}
+
+// ---------------------------------------------------------------- R10.10 the filter tries only grow
+
+// ruleTrieGrowOnly: prefix lists (prefix match) and command lists (exact match)
+// share one trie type. Whatever was inserted must stay findable by both kinds
+// of lookup, so an existing node never loses children and a terminal mark is
+// never taken back: nodes are modified only by adding a child or setting the
+// mark.
+func ruleTrieGrowOnly(w *core.World, r *core.Report) {
+	bad := ""
+	var pos token.Pos
+	n := 0
+	fresh := func(v ssa.Value) bool { // the node being constructed right here
+		a, ok := v.(*ssa.Alloc)
+		return ok && a.Comment == "complit"
+	}
+	for _, f := range w.FuncsIn("pkg/filter") {
+		for _, in := range core.OwnInstrs(f) {
+			switch x := in.(type) {
+			case *ssa.Store:
+				fa, ok := x.Addr.(*ssa.FieldAddr)
+				if !ok || !strings.HasSuffix(core.TypeName(fa.X.Type()), "filter.TrieNode") {
+					continue
+				}
+				n++
+				if fresh(fa.X) {
+					continue
+				}
+				switch core.FieldName(fa) {
+				case "children":
+					bad, pos = "the children of an existing trie node are replaced: entries inserted below it are lost for exact-match lookups (command lists)", x.Pos()
+				case "isEnd":
+					if b, isC := core.ConstBool(x.Val); !isC || !b {
+						bad, pos = "the terminal mark of an existing trie node is taken back", x.Pos()
+					}
+				}
+			case *ssa.Call:
+				if b, ok := x.Call.Value.(*ssa.Builtin); ok && b.Name() == "delete" && len(x.Call.Args) > 0 {
+					if fieldNameOfLoad(x.Call.Args[0]) == "children" {
+						bad, pos = "a child is deleted from a trie node", x.Pos()
+					}
+				}
+			}
+		}
+	}
+	r.Check(bad == "" && n >= 3, "Trie/grow-only", pos, "%s (node writes seen: %d)", bad, n)
 }
